@@ -223,7 +223,59 @@ def std_model(m, path, args, t):
         if items is not None:
             write_back(m, args[0], ('str', a0[1] + [m.deref_value(x) for x in items]))
             return sym('unit')
+    # ---------------------------------------------------------------- closures handed to adaptors
+    if re.search(r'Iterator>?::map$|::map$', path) and len(args) == 2 and not re.search(r'Option|Result', path):
+        items = as_items(m, args[0])
+        if items is not None:
+            out = []
+            for x in items:
+                r = m.apply_fn(args[1], [x])
+                if r is None:
+                    raise Unknown('map with an unknown function value')
+                out.append(r)
+            return ('it', out, 'map')
+    if re.search(r'Option::<.*>::map_or$', path) and len(args) == 3:
+        o = m.deref_value(args[0])
+        if isinstance(o, dict) and '__discr__' in o:
+            if o['__discr__'] == 0:
+                return args[1]
+            r = m.apply_fn(args[2], [o['0']])
+            if r is None:
+                raise Unknown('map_or with an unknown function value')
+            return r
+    if re.search(r'Option::<.*>::map$', path) and len(args) == 2:
+        o = m.deref_value(args[0])
+        if isinstance(o, dict) and '__discr__' in o:
+            if o['__discr__'] == 0:
+                return none(m)
+            r = m.apply_fn(args[1], [o['0']])
+            if r is None:
+                raise Unknown('map with an unknown function value')
+            return some(m, r)
+    if re.search(r'Option::<.*>::unwrap_or$', path) and len(args) == 2:
+        o = m.deref_value(args[0])
+        if isinstance(o, dict) and '__discr__' in o:
+            return o['0'] if o['__discr__'] == 1 else args[1]
     # ---------------------------------------------------------------- vectors / slices
+    if re.search(r'vec::Vec::<.*>::(new|with_capacity)$|Vec::<T>::(new|with_capacity)$', path):
+        return ('vec', [])
+    if re.search(r'Vec::<.*>::push$', path) and len(args) == 2 and is_vec(a0):
+        write_back(m, args[0], ('vec', a0[1] + [m.deref_value(args[1]) if not isinstance(m.deref_value(args[1]), dict) else m.deref_value(args[1])]))
+        return sym('unit')
+    if re.search(r'(Vec::<.*>|slice::<impl \[T\]>)::last$', path) and is_vec(a0):
+        return some(m, a0[1][-1]) if a0[1] else none(m)
+    if re.search(r'(Vec::<.*>|slice::<impl \[T\]>)::first$', path) and is_vec(a0):
+        return some(m, a0[1][0]) if a0[1] else none(m)
+    if re.search(r'(Vec::<.*>|slice::<impl \[T\]>)::is_empty$', path) and is_vec(a0):
+        return int(not a0[1])
+    if re.search(r'slice::<impl \[T\]>::binary_search$', path) and len(args) == 2 and is_vec(a0):
+        x = m.deref_value(args[1])
+        if isinstance(x, int) and all(isinstance(y, int) for y in a0[1]):
+            import bisect
+            i = bisect.bisect_left(a0[1], x)
+            if i < len(a0[1]) and a0[1][i] == x:
+                return m.make_adt('core::result::Result::Ok', [i], [])
+            return m.make_adt('core::result::Result::Err', [i], [])
     if re.search(r'(Vec::<.*>|slice::<impl \[T\]>)::len$', path) and is_vec(a0):
         return Tagged(len(a0[1]), seq_class(a0[1]))
     if re.search(r'(Vec::<.*>|slice::<impl \[T\]>)::get$', path) and len(args) == 2 and is_vec(a0):
